@@ -1,6 +1,6 @@
 """C19 — service resumes after an upstream outage (the QUIC connector's shared-connection cache)."""
 import harness
-from specs import quiccache
+from specs import quiccache, relay
 
 
 def run(ck):
@@ -8,9 +8,15 @@ def run(ck):
         return
     import contracts_async  # noqa
     ck.assumptions += ['every await completes', 'the cache is only touched under its tokio Mutex (one caller at a time)']
-    ck.out_of_scope += ['everything that needs time or several processes: detection of a dead connection by quinn (idle timeout / keep-alive), bounded number of attempts, other connector kinds (they dial per request), tunnels open across the outage (their clean failure is C04 / C16)',
+    ck.out_of_scope += ['everything that needs time or several processes: detection of a dead connection by quinn (idle timeout / keep-alive), bounded number of attempts, other connector kinds (they dial per request); of the tunnels open across the outage only: a direction that ends with an error is an error of the tunnel (shared with C04), not what the peers see on the wire',
                         'which failures carry a "quic:" context: an upstream that dies silently surfaces first as a stream error without it']
     quiccache.spec_get_connection(ck)
     quiccache.spec_redial_history(ck)
     quiccache.spec_connect_forgets_dead_connection(ck)
-    ck.post_filter = lambda o: o.label.startswith('C19/') or o.status in ('undecided', 'vacuous', 'inconclusive')
+    # tunnels open across the outage fail cleanly, the error is recorded: a relay direction that ends with an I/O error ends that
+    # direction with an error, and whichever direction fails (also after the other has ended cleanly) the tunnel is not reported finished
+    ck.plans.append(relay.relay_replay_plan)
+    relay.check_copy_half_abort(ck)
+    relay.check_copy_bidi_completion(ck)
+    keep = ('C19/', 'C04/copy_bidi/a-direction-that-ended-with-an-error', 'C04/relay/a-failed-read-or-write', 'C04/relay/an-aborted-source')
+    ck.post_filter = lambda o: o.label.startswith(keep) or o.status in ('undecided', 'vacuous', 'inconclusive')
